@@ -294,24 +294,36 @@ class LemmaCtx(Ctx):
         return self.st.fail("lemma:%s/%s" % (self.name, name), detail, status=status, kind="lemma")
 
 
-def run_lemma(name, fn, case):
-    """a specification-level lemma: fn(ctx) builds its hypotheses and emits obligations"""
+def run_lemma(name, fn, case, max_paths=400):
+    """a specification-level lemma: fn(ctx) builds its hypotheses and emits obligations; like a
+    function body it is explored along every feasible path"""
     label = "lemma:%s%s" % (name, ("[" + ",".join("%s=%s" % (k, case[k]) for k in sorted(case)) + "]") if case else "")
     res = UnitResult(label)
     t0 = time.time()
     engine = Engine(contracts=REGISTRY)
-    st = PathState(engine, [])
-    ctx = LemmaCtx(engine, st, name, case)
-    engine.model_terms = []
-    res.paths = 1
-    try:
-        fn(ctx)
-    except (Unsupported, UnsupportedOp, NumericUndecided, TooManyLeaves, NotImplementedError) as e:
-        res.undecided.append(("%s: %s" % (type(e).__name__, e), []))
-    except Exception as e:  # noqa
-        res.crash = "".join(traceback.format_exception(type(e), e, e.__traceback__)[-6:])
-        res.undecided.append(("checker error: %r" % (e,), []))
-    res.obligations.extend(st.obligations)
+    worklist = [[]]
+    while worklist:
+        if res.paths >= max_paths:
+            res.undecided.append(("path budget exhausted", []))
+            break
+        trace = worklist.pop()
+        st = PathState(engine, trace)
+        ctx = LemmaCtx(engine, st, name, case)
+        engine.model_terms = []
+        engine.hooks = {}
+        engine.call_stack = []
+        res.paths += 1
+        try:
+            fn(ctx)
+        except PathCut:
+            pass
+        except (Unsupported, UnsupportedOp, NumericUndecided, TooManyLeaves, NotImplementedError) as e:
+            res.undecided.append(("%s: %s" % (type(e).__name__, e), list(st.trace)))
+        except Exception as e:  # noqa
+            res.crash = "".join(traceback.format_exception(type(e), e, e.__traceback__)[-6:])
+            res.undecided.append(("checker error: %r" % (e,), list(st.trace)))
+        res.obligations.extend(st.obligations)
+        worklist.extend(st.alternatives)
     res.seconds = time.time() - t0
     res.solver_checks = engine.stats.checks
     res.solver_seconds = engine.stats.seconds
